@@ -63,7 +63,14 @@ def gen_exchange(rng):
     path = rng.choice(['/', '/a/b?x=1', '/%7Eu'])
     if rng.random() < 0.1:
         path = wc.gen_long_path(rng)
-    return {'url': 'http://%s%s' % (host, path), 'header': header, 'body': body, 'framing': framing,
+    cut_header = None
+    if rng.random() < 0.15 and not r['linesep']:
+        # the server hangs up inside / right at the end of the header block: after the k-th line, or after the lone CR of
+        # the final CRLF; nothing says how long the message is
+        nl = len(wc.header_lines(header))
+        cut_header = rng.choice([nl - 1, nl - 1, nl - 1, rng.randrange(1, nl), 'lone-cr', 'mid-line'])
+        framing, body = 'close', b''
+    return {'url': 'http://%s%s' % (host, path), 'header': header, 'body': body, 'framing': framing, 'cut_header': cut_header,
             'status': r['status'], 'mime': r['mime'], 'linesep': r['linesep'],
             'cuts': fakenet.random_cuts(rng, len(header) + len(body), rng.choice(['none', 'one', 'few', 'many'])),
             'compress': rng.random() < 0.5, 'digests': rng.random() < 0.85,
@@ -86,6 +93,17 @@ class Server:
 
     async def respond(self, conn):
         data = self.ex['header'] + self.ex['body']
+        cut = self.ex.get('cut_header')
+        if cut is not None:
+            lines = wc.header_lines(self.ex['header'])
+            if cut == 'lone-cr':
+                data = b''.join(lines[:-1]) + b'\r'
+            elif cut == 'mid-line':
+                data = b''.join(lines[:-1])[:-3]
+            else:
+                data = b''.join(lines[:cut])
+            await conn.send_segments(fakenet.segment(data, [c for c in self.ex['cuts'] if c < len(data)]), eof=True)
+            return
         await conn.send_segments(fakenet.segment(data, self.ex['cuts']),
                                  eof=(self.ex['framing'] == 'close' or bool(self.ex.get('ignore_length'))))
 
@@ -166,6 +184,39 @@ def run_exchange(ex, seed):
     return obs, state
 
 
+TCHAR = b"!#$%&'*+-.^_`|~0123456789abcdefghijklmnopqrstuvwxyzABCDEFGHIJKLMNOPQRSTUVWXYZ"
+
+
+def independent_status_mime(head):
+    """Status and MIME type of a header block that may lack its final empty line (reference parse, no wpull code):
+    lines end at LF; SP/HTAB-led lines continue the previous field; first Content-Type field; longest token/token prefix."""
+    lines = head.split(b'\n')
+    m = re.match(rb'HTTP/\d+\.\d+[ \t]+(\d{1,3})', lines[0])
+    status = int(m.group(1)) if m else None
+    fields = []
+    for ln in lines[1:]:
+        ln = ln.rstrip(b'\r')
+        if ln[:1] in (b' ', b'\t') and fields:
+            fields[-1] = fields[-1] + b' ' + ln.strip(b' \t')
+        elif ln:
+            fields.append(ln)
+    mime = '-'
+    for f in fields:
+        name, sep, value = f.partition(b':')
+        if sep and name.strip(b' \t').lower() == b'content-type':
+            value = value.strip(b' \t')
+            i = 0
+            while i < len(value) and value[i] in TCHAR:
+                i += 1
+            j = i + 1
+            while i and value[i:i + 1] == b'/' and j < len(value) and value[j] in TCHAR:
+                j += 1
+            if i and value[i:i + 1] == b'/' and j > i + 1:
+                mime = value[:j].decode('latin-1')
+            break
+    return status, mime
+
+
 def check_exchange(ctx, ex, pid):
     obs, state = run_exchange(ex, 'client/%s' % ex['url'])
     outcome = state.get('outcome', 'crash')
@@ -180,6 +231,13 @@ def check_exchange(ctx, ex, pid):
             uid = (r.id or b'').decode('latin-1')[10:-1]
             if r.type == b'request':
                 obs['meta'][uid] = {'kind': 'request', 'full': received, 'hdrlen': hl}
+            elif r.type in (b'response', b'revisit') and ok and ex.get('cut_header') is not None:
+                # the server hung up in the header block and the client took that for a response: whatever was
+                # archived must be described by its index line (independent, tolerant parse of the bytes sent)
+                sent = bytes(conn.sent)
+                st, mime = independent_status_mime(sent)
+                obs['meta'][uid] = {'kind': 'response', 'full': sent, 'hdrlen': len(sent), 'status': st, 'mime': mime,
+                                    'revisit': None, 'linesep': False}
             elif r.type in (b'response', b'revisit') and ok:
                 obs['meta'][uid] = {'kind': 'response', 'full': ex['header'] + ex['body'], 'hdrlen': len(ex['header']),
                                     'status': ex['status'], 'mime': ex['mime'], 'revisit': None,
@@ -189,6 +247,9 @@ def check_exchange(ctx, ex, pid):
     tags = ['client:' + outcome.split(':')[0].replace(' ', '-'), 'client:' + ex['framing']]
     if ex.get('ignore_length'):
         tags.append('client:ignore-length')
+    if ex.get('cut_header') is not None:
+        tags.append('client:header-cut:%s:%s' % (ex['cut_header'] if isinstance(ex['cut_header'], str) else 'line',
+                                                  'recorded' if any(r.type == b'response' for r in recs) else 'no-record'))
     for r in recs:
         if r.type == b'request' and conn is not None and r.block != bytes(conn.received):
             problems.append(('block-not-wire-bytes', 'request_data', 'request record block differs from the bytes the server received'))
